@@ -196,7 +196,7 @@ func vReceive(kind int) {
 		cctx, ccancel := context.WithCancel(ctx)
 		inflightCancel = ccancel
 		calls = []hrpc.Call{vGet(cctx, "a", regA), vPut(ctx, "n", regB)}
-		if verifChoose(2) == 1 {
+		if verifParam("CALLS3") == 1 && verifChoose(2) == 1 {
 			calls = append(calls, vGet(ctx, "b", regA))
 		}
 		m.add(calls)
